@@ -628,12 +628,65 @@ type (
 	WaitGroup = sync.WaitGroup
 	Once      = sync.Once
 	Map       = sync.Map
-	Cond      = sync.Cond
 	Locker    = sync.Locker
 )
 
+// Cond has the API of sync.Cond.  Outside a simulation it is one; inside, a
+// waiter is parked by the scheduler (polling, like channel operations) until
+// Signal or Broadcast has been called since it started waiting.  Signal wakes
+// every waiter (a spurious wake-up for all but one, which correct users of a
+// condition variable tolerate by re-checking their condition).
+type Cond struct {
+	L    Locker
+	real *sync.Cond
+	gen  uint64
+}
+
 // NewCond mirrors sync.NewCond.
-func NewCond(l Locker) *Cond { return sync.NewCond(l) }
+func NewCond(l Locker) *Cond { return &Cond{L: l, real: sync.NewCond(l)} }
+
+//go:norace
+func (c *Cond) Wait() {
+	s := active
+	if s == nil || s.cur < 0 {
+		c.real.Wait()
+		return
+	}
+	gen := c.gen
+	c.L.Unlock()
+	for c.gen == gen {
+		s.yield(YChan, 3)
+		if c.gen != gen {
+			break
+		}
+		s.chanWait()
+	}
+	c.L.Lock()
+}
+
+//go:norace
+func (c *Cond) Signal() {
+	s := active
+	if s == nil || s.cur < 0 {
+		c.real.Signal()
+		return
+	}
+	c.gen++
+	s.progress++
+	s.yield(YChan, 4)
+}
+
+//go:norace
+func (c *Cond) Broadcast() {
+	s := active
+	if s == nil || s.cur < 0 {
+		c.real.Broadcast()
+		return
+	}
+	c.gen++
+	s.progress++
+	s.yield(YChan, 4)
+}
 
 // OnceFunc mirrors sync.OnceFunc.
 func OnceFunc(f func()) func() { return sync.OnceFunc(f) }
